@@ -211,18 +211,35 @@ def firstUnchanged (name : String) (h : List (List F)) (y : List F) : List Claus
     [clauseP name (toBitsNat x == toBitsNat o || (FloatLike.isNaN x && FloatLike.isNaN o)) (FloatLike.render x)]
   | _, _ => []
 
-/-- "a constant signal is reproduced exactly" at a float type: a finite non-zero sample repeated from the start comes back
-bit for bit whatever the (finite) gains — `x + (x − x)·w = x + 0 = x` in IEEE arithmetic, at any magnitude -/
+/-- "a constant signal is reproduced" at a float type: a finite non-zero sample repeated from the start comes back —
+bit for bit in the code as it is (`x + (x − x)·w = x + 0 = x` in IEEE arithmetic, at any magnitude); asserted up to four
+roundings, so that a rational-equivalent rewrite of the recurrence is not reported for its rounding alone, while an
+intermediate that leaves the type's range (`inf`, `NaN`) is -/
 def constantExact (name : String) (gains : List F) (h : List (List F)) (y : List F) : List Clause :=
   match fheads h, y with
   | x :: rest, [o] =>
     (match FloatLike.toRat x with
      | some r =>
        if r != 0 && rest.all (fun v => toBitsNat v == toBitsNat x) && gains.all (fun g => (FloatLike.toRat g).isSome) then
-         [clauseP name (toBitsNat o == toBitsNat x) (FloatLike.render x)]
+         let ok := match FloatLike.toRat o with
+           | some q => absQ (q - r) ≤ 4 * mkRat 1 (2 ^ mantBits F) * absQ r
+           | none => false
+         [clauseP name ok (FloatLike.render x)]
        else []
      | none => [])
   | _, _ => []
+
+/-- the window mean at a float type while an infinity or a NaN is among the most recent `min(k, N)` samples: their sum
+in the type's own arithmetic is an infinity or a NaN, and so is the mean — never a finite number computed from fewer
+samples -/
+def meanNonFinite (N : Nat) (h : List (List F)) (y : List F) : List Clause :=
+  let xs := fheads h
+  let w := xs.drop (xs.length - N)
+  match y with
+  | [o] =>
+    if N == 0 || !(w.any (fun v => (FloatLike.toRat v).isNone)) then [] else
+    [clauseP "C03.window-mean" (FloatLike.toRat o).isNone "an infinity or NaN (a non-finite sample is inside the window)"]
+  | _ => []
 
 /-- "unit gain for constant signals whenever the coefficient sum is non-zero" at a float type: a kernel handed to the
 normalising constructor with a non-zero sum — however small in absolute terms — reproduces a constant signal up to the
@@ -272,11 +289,12 @@ def specIntF (h : List (List F)) (y : List F) : List Clause :=
 def specFloat (getPartnerInputs : Option (List F)) : St F → List (List F) → List F → Bool → List Clause
   | .differentiate _, h, y, _ => specDiffF h y
   | .integrate _, h, y, _ => specIntF h y
-  | .ema w _, h, y, _ => firstUnchanged "C13.first-sample-unchanged" h y ++ constantExact "C13.constant-exact" [w] h y
+  | .ema w _, h, y, _ => firstUnchanged "C13.first-sample-unchanged" h y ++ constantExact "C13.constant-reproduced" [w] h y
   | .emedian p m q _, h, y, _ =>
-    firstUnchanged "C13.first-sample-unchanged" h y ++ constantExact "C13.constant-exact" [p, m, q] h y
+    firstUnchanged "C13.first-sample-unchanged" h y ++ constantExact "C13.constant-reproduced" [p, m, q] h y
   | .alphaBeta _ _ _, h, y, _ => firstUnchanged "C14.first-sample-unchanged" h y
   | .hampel t f med, h, y, _ => specHampel med.buffer.length t f h y
+  | .mean N _, h, y, _ => meanNonFinite N h y
   | .convolve c _, h, y, preset => specConvF c h y preset
   | .analyze l hp _ _, h, y, _ => specAnalyzeF l hp h y
   | .synthesize l hp _ _, h, y, _ => specSynthF l hp h y getPartnerInputs
@@ -369,16 +387,21 @@ def stepFloatTable (tbl : List (Nat × FInst F)) (factor : Rat) (typeTag : Strin
     let id ← id.toNat?
     let _ ← get id
     done (tbl.filter (·.1 != id)) (report d op { model := "ok", impl := implS })
-  | "same" :: a :: b :: name :: _ => do
+  | "same" :: a :: b :: name :: rest => do
     let ia ← get (← a.toNat?)
     let ib ← get (← b.toNat?)
+    -- an optional component index: that component of `a`'s output against `b`'s output (its only one, or the same component)
+    let comp (o : Option (List F)) (single : Bool) : Option (List F) :=
+      match rest.head?.bind String.toNat?, o with
+      | some k, some l => if single && l.length == 1 then some l else (l[k]?).map (fun v => [v])
+      | _, o => o
     -- "same inputs, same outputs" comparisons are meaningful only between instances with the same input history
-    let sameInputs := ["C20.copy-continues", "C20.copy-eq-replay", "C12.reset-eq-fresh"].contains name
+    let sameInputs := ["C20.copy-continues", "C20.copy-eq-replay", "C12.reset-eq-fresh", "C06.state-determines-future"].contains name
     let histEq := ia.hist.map (fun l => l.map toBitsNat) == ib.hist.map (fun l => l.map toBitsNat)
     match (if !sameInputs || histEq then ia.last else none), ib.last with
     | some la, some lb =>
-      let ra := frenderOut la
-      let rb := frenderOut lb
+      let ra := frenderOut (comp la false)
+      let rb := frenderOut (comp lb true)
       done tbl (report d op { model := s!"{ra} | {rb}", impl := implS, kind := fkindName ia.st,
                               clauses := [{ name := name, ok := ra == rb, expected := ra }] })
     | _, _ => done tbl (report d op { model := implS, impl := implS, kind := fkindName ia.st })
@@ -403,6 +426,12 @@ def stepI64Op (d : DState) (op : String) (toks impl : List String) : Option (DSt
     if !(["i64", "u8", "i8"].contains ((kv.get "T").getD "")) then none else do
     let n ← kv.nat "N"
     some (report ((put d (← id.toNat?) { st := (Cfg.mean n : Cfg I64).init }).flag "i64") op { model := "ok", impl := implS, kind := "mean-i64" })
+  | ["new", id, kind, t] =>
+    -- the running sum / the first difference at machine integers: every value the property's formula names (the
+    -- running sums, the differences) is kept representable by the workloads, so unbounded integers are the type
+    if !(["T=i64", "T=u8", "T=i8"].contains t) || !(kind == "integrate" || kind == "differentiate") then none else do
+    let st : St I64 := if kind == "integrate" then (Cfg.integrate : Cfg I64).init else (Cfg.differentiate : Cfg I64).init
+    some (report ((put d (← id.toNat?) { st := st }).flag "i64") op { model := "ok", impl := implS, kind := kind ++ "-int" })
   | "new" :: id :: kind :: rest =>
     -- the convolution at machine integers (the normalising constructor divides with truncation)
     let kv := parseKV rest
@@ -431,6 +460,14 @@ def stepI64Op (d : DState) (op : String) (toks impl : List String) : Option (DSt
         | .mean N _ => if N == 0 then [] else
           let e := (Spec.windowMean N (hist.filterMap List.head?)).render
           [{ name := "C03.window-mean", ok := e == implS, expected := e : Clause }]
+        | .integrate _ =>
+          let e := toString ((hist.filterMap List.head?).foldl (fun s v => s + v.v) 0)
+          [{ name := "C15.running-sum", ok := e == implS, expected := e : Clause }]
+        | .differentiate _ =>
+          let e := match (hist.filterMap List.head?).reverse with
+            | a :: b :: _ => toString (a.v - b.v)
+            | _ => "0"
+          [{ name := "C15.first-difference", ok := e == implS, expected := e : Clause }]
         | .convolve _ _ =>
           let xs := hist.filterMap List.head?
           if inst.note == "unit-gain" && xs.all (fun v => v.v == x.v) then
